@@ -1,6 +1,6 @@
 use anyhow::{anyhow, Context, Result};
-use std::fs::{self, File, OpenOptions};
-use std::io::{Read, Write};
+use std::fs::{self, File};
+use std::io::Read;
 use std::path::{Path, PathBuf};
 use std::process;
 use std::sync::Mutex;
@@ -75,6 +75,12 @@ impl LockFile {
                     // Process is not running, remove the lock
                     fs::remove_file(&lock_path).context("Failed to remove orphaned lock file")?;
                 }
+            } else {
+                // A lock file is published complete (see below), so a file that is not of the form
+                // "pid:timestamp" was never the lock of a live process: it is left over from a
+                // crash of an older version (empty) or was damaged by hand. Treat it as abandoned
+                // instead of failing with "File exists" for ever.
+                fs::remove_file(&lock_path).context("Failed to remove unparsable lock file")?;
             }
         }
 
@@ -92,19 +98,15 @@ impl LockFile {
             fs::create_dir_all(parent).context("Failed to create renamify directory")?;
         }
 
-        // Write lock file atomically
-        let mut file = OpenOptions::new()
-            .write(true)
-            .create_new(true) // Fail if file exists (race condition protection)
-            .open(&lock_path)
-            .context("Failed to create lock file")?;
-
-        if let Err(e) = file.write_all(lock_content.as_bytes()) {
-            // Do not leave an empty lock file behind
-            drop(file);
-            let _ = fs::remove_file(&lock_path);
-            return Err(e).context("Failed to write lock file");
-        }
+        // Publish the lock file complete: write a private temporary file, then link it to the lock
+        // path. Like `create_new`, `hard_link` fails if the path exists, but the lock file is never
+        // visible empty, so no other process can mistake a lock that is being taken for an
+        // abandoned one.
+        let tmp_path = renamify_dir.join(format!("{LOCK_FILE_NAME}.{pid}.tmp"));
+        fs::write(&tmp_path, lock_content.as_bytes()).context("Failed to write lock file")?;
+        let linked = fs::hard_link(&tmp_path, &lock_path);
+        let _ = fs::remove_file(&tmp_path);
+        linked.context("Failed to create lock file")?;
 
         if let Ok(mut held) = HELD_LOCKS.lock() {
             held.push(lock_path.clone());
